@@ -1,6 +1,7 @@
 package main
 
 import (
+	"encoding/json"
 	"math/rand"
 	"net/url"
 
@@ -36,6 +37,15 @@ func moduleRoot() *module {
 		same:    func(a, b interface{}) bool { return a.(*d2.ServiceUris) == b.(*d2.ServiceUris) },
 		choose:  func(w interface{}, schemes []string) *url.URL { return w.(*d2.ServiceUris).ChooseHost(schemes) },
 		setRand: func(src rand.Source) func() { return d2.SetRandSource(src) },
+		decode: func(data []byte) (map[string]float64, bool) {
+			u := new(d2.Uri)
+			err := json.Unmarshal(data, u)
+			left := map[string]float64{}
+			for h, w := range u.Weights {
+				left[h.String()] = w
+			}
+			return left, err == nil
+		},
 		urisPath:     d2.UrisPath,
 		servicesPath: d2.ServicesPath,
 		handleService: func(name, path string, data *[]byte) *svcView {
@@ -57,6 +67,12 @@ func moduleRoot() *module {
 						return nil
 					}
 					return u
+				},
+				uriLoop: func(cl string, evs []rawEv, mode string) {
+					rootFeed(evs, mode, func(ch chan d2.TreeCacheEvent) { rootWaitForUriUpdates(c, cl, ch) })
+				},
+				svcLoop: func(name string, evs []rawEv, mode string) {
+					rootFeed(evs, mode, func(ch chan d2.TreeCacheEvent) { rootWaitForServiceUpdates(c, name, ch) })
 				},
 				resolve: func(name string) (*url.URL, error) { return c.ResolveHostnameAndContextForQuery(name, nil) },
 			}
